@@ -295,7 +295,7 @@ def run(ctx):
                 k += '-strided'
         return f'{prefix}/{k}-{how}'
 
-    N = ctx.pick(7_000, 40_000)
+    N = ctx.pick(7_000, 25_000)
     stats = {}
     for i, rng in ctx.cases(N, 'main'):
         t = G.gen_type(rng, depth=rng.choice([0, 1, 2, 2, 3, 3, 4]), mode='value')
